@@ -306,5 +306,5 @@ pub open spec fn error_status_kept(e: int, status: int) -> bool { e != -1 ==> st
 // the Range value the static controller hands to the range pipeline
 pub open spec fn effective_range(hs: Seq<Header>) -> Seq<char> {
     let h = req_header(hs, Header::_RANGE@);
-    if h.is_some() { h.unwrap().value@ } else { s_bytes0() }
+    if h.is_some() { h.unwrap().value@ } else { seq!['b', 'y', 't', 'e', 's', '=', '0', '-'] }
 }
